@@ -219,7 +219,9 @@ CHECKS["C08"] = dict(
          "every concrete serialisable class found by introspection satisfies class_ok (registered under the name it writes, every "
          "constructor parameter and documented tunable written, nothing written that the constructor refuses); every nested field's "
          "protocol is inhabited; every module of the package can be the first import of a fresh interpreter (the import protocol is "
-         "run on the module-level import statements). Simulation-level settings are covered by the behavioural leg only.",
+         "run on the module-level import statements); after importing quansino.mc or any of its submodules alone every module that registers "
+         "classes has been executed, and quansino.moves alone brings the operations and integrators (what a restart script relies on; also "
+         "exercised by single-import rebuilds of every document in fresh interpreters). Simulation-level settings are covered by the behavioural leg only.",
     ref="§4 C08",
     note=COMMON_NOTE + " Trusted additionally: the translator (introspection + ast in a fresh interpreter, fail-closed); ASE's JSON codec.")
 
@@ -228,7 +230,8 @@ CHECKS["C07"] = dict(
               "simulation / component schemas with finite obligations by vm_compute + the property verbatim on real restart files: every step of "
               "every generated run is a restart point",
     text="Theorems: for any step function that reads the state only through its step-relevant projection, any restart point k and any "
-         "number of further steps, a file that restores the projection gives a run that agrees with the uninterrupted one (induction); "
+         "number of further steps, a file that restores the projection gives a run that agrees with the uninterrupted one (induction), and so "
+         "does any chain of restarts of restarts (second-generation restarts are taken from every restart point of every run); "
          "the move table's components are restored exactly at any nesting depth (generic round trip); regenerated obligations: every "
          "simulation class implementing the restart interface writes the atoms, everything its constructor needs, nothing it refuses and "
          "every setting it owns, and is registered; every component class satisfies class_ok. Open finding: ForceBias offers "
